@@ -184,6 +184,10 @@ GLOB_TYPE = {"dir": "d", "file": "f", "slink": "l", "chr": "c", "blk": "b", "fif
 def glob_match(pat, name, pathname):
     """fnmatch(3) for patterns made of literals, '*' and '?' (what the generator emits); with pathname=True wildcards do not match '/'"""
     import re
+    while b"**" in pat:
+        pat = pat.replace(b"**", b"*")
+    if pat.count(b"*") > 6:
+        raise treemodel.Unrepresentable("pattern with too many wildcards for the reference matcher")
     rx = b""
     for i in range(len(pat)):
         c = pat[i:i + 1]
